@@ -285,9 +285,7 @@ def identityfile_case(nblocks, maxhost, maxpat):
             ids = []
             for k in range(ctx.choice("block%d.nidentityfiles" % i, [0, 1, 2])):
                 v = ctx.choice("block%d.identityfile%d" % (i, k), IDS)
-                if v in ids:
-                    ctx.cut("the same IdentityFile twice inside one block (the statement speaks of accumulation across blocks)")
-                ids.append(v)
+                ids.append(v)                        # the same file may be listed twice, also inside one block
                 lines.append(("IdentityFile", v))
             blocks.append(((lambda t, pats=pats: _plist_applies(t, pats)), ids))
         host = ctx.text_upto("hostname", maxhost, HOSTCH, minlen=1)
